@@ -2,7 +2,7 @@
   Helper definitions and run invariants for `CachedProofs/LayerB/Retained.lean` (C03 at ACTION granularity, from the
   ENGLISH premises: "the demand fits", "operations on the key one after another", "the time-to-live has not elapsed").
 
-    1  `CStep`: one action of a client, as a relation that keeps the WEIGHTS, the RESULT of the call and the exact
+    1  `CAct`: one action of a client, as a relation that keeps the WEIGHTS, the RESULT of the call and the exact
        successor position (`CTrans` of Inv.lean forgets them)
     2  sums (`lsum`, `sumTo`)
     3  `NoShut`: no `shutdown()` was ever requested
@@ -56,93 +56,93 @@ def deriveDel (b : BState) (id : Nat) (uw : Option Int) : Option Int :=
 
 /-- One action of client `i`, as a relation: one constructor per branch of `clientAct` outside `shutdown()`.
     (`shutting`, `shut`: the branches taken only once a `shutdown()` has been requested; nothing is said about them.) -/
-inductive CStep (b : BState) (i : Nat) : BState → Prop where
-  | shutting (r : Req) (b' : BState) : b.cl[i]? = some (.start r) → b.g.shutting = true → CStep b i b'
-  | shut (pc : CPc) (b' : BState) : b.cl[i]? = some pc → pc.shutPos = true → CStep b i b'
+inductive CAct (b : BState) (i : Nat) : BState → Prop where
+  | shutting (r : Req) (b' : BState) : b.cl[i]? = some (.start r) → b.g.shutting = true → CAct b i b'
+  | shut (pc : CPc) (b' : BState) : b.cl[i]? = some pc → pc.shutPos = true → CAct b i b'
   | startPutBad (k v w ttl) : b.cl[i]? = some (.start (.putW k v w ttl)) → b.g.shutting = false → w ≤ 0 →
-      CStep b i (finishCall b i (.panic .weightNotPositive))
+      CAct b i (finishCall b i (.panic .weightNotPositive))
   | startPut (k v w ttl) : b.cl[i]? = some (.start (.putW k v w ttl)) → b.g.shutting = false → 0 < w →
-      CStep b i (setClient b i (.putPresent k v w ttl))
-  | startDelete (k) : b.cl[i]? = some (.start (.delete k)) → b.g.shutting = false → CStep b i (setClient b i (.delMark k))
-  | startGet (k) : b.cl[i]? = some (.start (.get k)) → b.g.shutting = false → CStep b i (setClient b i (.getStore k))
-  | startWeight : b.cl[i]? = some (.start .weight) → b.g.shutting = false → CStep b i (setClient b i .weightRead)
+      CAct b i (setClient b i (.putPresent k v w ttl))
+  | startDelete (k) : b.cl[i]? = some (.start (.delete k)) → b.g.shutting = false → CAct b i (setClient b i (.delMark k))
+  | startGet (k) : b.cl[i]? = some (.start (.get k)) → b.g.shutting = false → CAct b i (setClient b i (.getStore k))
+  | startWeight : b.cl[i]? = some (.start .weight) → b.g.shutting = false → CAct b i (setClient b i .weightRead)
   | startUpsert (k v w ttl rm) : b.cl[i]? = some (.start (.upsert k v w ttl rm)) → b.g.shutting = false →
-      CStep b i (setClient b i (.upUpdate k v w ttl rm))
-  | startGetRef (k) : b.cl[i]? = some (.start (.getRef k)) → b.g.shutting = false → CStep b i (setClient b i (.refStore k))
+      CAct b i (setClient b i (.upUpdate k v w ttl rm))
+  | startGetRef (k) : b.cl[i]? = some (.start (.getRef k)) → b.g.shutting = false → CAct b i (setClient b i (.refStore k))
   | startMget (ks iter) : b.cl[i]? = some (.start (.mget ks iter)) → b.g.shutting = false →
-      CStep b i (mgetNext b i ks [] iter)
+      CAct b i (mgetNext b i ks [] iter)
   | putPresentHit (k v w ttl) : b.cl[i]? = some (.putPresent k v w ttl) → b.g.store.contains k = true →
-      CStep b i (spotFinish b i (.rejected .keyAlreadyExists))
+      CAct b i (spotFinish b i (.rejected .keyAlreadyExists))
   | putPresentOk (k v w ttl) : b.cl[i]? = some (.putPresent k v w ttl) → b.g.store.contains k = false →
-      CStep b i (setClient b i (.idNext k v w ttl))
+      CAct b i (setClient b i (.idNext k v w ttl))
   | idNext (k v w ttl) : b.cl[i]? = some (.idNext k v w ttl) →
-      CStep b i (setClient { b with g := { b.g with nextId := b.g.nextId + 1 } } i
+      CAct b i (setClient { b with g := { b.g with nextId := b.g.nextId + 1 } } i
         (.send (match ttl with
           | some t => Cmd.putTtl b.g.nextId (b.g.cfg.hashOf k) w k v t
           | none => Cmd.put b.g.nextId (b.g.cfg.hashOf k) w k v)))
-  | sendDead (cmd) : b.cl[i]? = some (.send cmd) → b.g.worker = .dead → CStep b i (finishCall b i .err)
+  | sendDead (cmd) : b.cl[i]? = some (.send cmd) → b.g.worker = .dead → CAct b i (finishCall b i .err)
   | sendOk (cmd) : b.cl[i]? = some (.send cmd) → b.g.worker ≠ .dead →
-      CStep b i (finishCall { b with g := { b.g with queue := b.g.queue ++ [(cmd, some b.g.acks.length)],
+      CAct b i (finishCall { b with g := { b.g with queue := b.g.queue ++ [(cmd, some b.g.acks.length)],
                                                       acks := b.g.acks ++ [.pending] } } i (.ack b.g.acks.length .pending))
   | delMark (k) : b.cl[i]? = some (.delMark k) →
-      CStep b i (setClient { b with g := { b.g with store := match b.g.store.get? k with
+      CAct b i (setClient { b with g := { b.g with store := match b.g.store.get? k with
         | some e => b.g.store.set k { e with soft := true }
         | none => b.g.store } } i (.send (.delete k)))
   | getMiss (k st) : b.cl[i]? = some (.getStore k) → (∀ e, b.g.store.get? k = some e → e.alive b.g.now = false) →
-      CStep b i (finishCall { b with g := { b.g with stats := st } } i (.value none))
+      CAct b i (finishCall { b with g := { b.g with stats := st } } i (.value none))
   | getHit (k e) : b.cl[i]? = some (.getStore k) → b.g.store.get? k = some e → e.alive b.g.now = true →
-      CStep b i (setClient { b with g := { b.g with stats := { b.g.stats with hits := b.g.stats.hits + 1 } } } i (.getPool k e.value))
+      CAct b i (setClient { b with g := { b.g with stats := { b.g.stats with hits := b.g.stats.hits + 1 } } } i (.getPool k e.value))
   | getPool (k v g1) : b.cl[i]? = some (.getPool k v) →
       g1 = { b.g with pool := g1.pool, bufq := g1.bufq, stats := g1.stats } →
-      CStep b i (finishCall { b with g := g1 } i (.value (some v)))
+      CAct b i (finishCall { b with g := g1 } i (.value (some v)))
   | mgetMiss (k ks acc iter st) : b.cl[i]? = some (.mgetStore k ks acc iter) →
       (∀ e, b.g.store.get? k = some e → e.alive b.g.now = false) →
-      CStep b i (mgetNext { b with g := { b.g with stats := st } } i ks (acc ++ [none]) iter)
+      CAct b i (mgetNext { b with g := { b.g with stats := st } } i ks (acc ++ [none]) iter)
   | mgetHit (k ks acc iter e) : b.cl[i]? = some (.mgetStore k ks acc iter) → b.g.store.get? k = some e →
       e.alive b.g.now = true →
-      CStep b i (setClient { b with g := { b.g with stats := { b.g.stats with hits := b.g.stats.hits + 1 } } } i
+      CAct b i (setClient { b with g := { b.g with stats := { b.g.stats with hits := b.g.stats.hits + 1 } } } i
         (.mgetPool k e.value ks acc iter))
   | mgetPool (k v ks acc iter g1) : b.cl[i]? = some (.mgetPool k v ks acc iter) →
       g1 = { b.g with pool := g1.pool, bufq := g1.bufq, stats := g1.stats } →
-      CStep b i (mgetNext { b with g := g1 } i ks (acc ++ [some v]) iter)
-  | weightRead : b.cl[i]? = some .weightRead → CStep b i (finishCall b i (.weight b.g.adm.used))
+      CAct b i (mgetNext { b with g := g1 } i ks (acc ++ [some v]) iter)
+  | weightRead : b.cl[i]? = some .weightRead → CAct b i (finishCall b i (.weight b.g.adm.used))
   | upAbsentPut (k v w ttl rm val weight) : b.cl[i]? = some (.upUpdate k v w ttl rm) → b.g.store.get? k = none →
       v = some val → upsertW b.g.cfg v w ttl = some weight → 0 < weight →
-      CStep b i (setClient b i (.idNext k val weight ttl))
+      CAct b i (setClient b i (.idNext k val weight ttl))
   | upAbsentPanic (k v w ttl rm p) : b.cl[i]? = some (.upUpdate k v w ttl rm) → b.g.store.get? k = none →
-      CStep b i (finishCall b i (.panic p))
+      CAct b i (finishCall b i (.panic p))
   | upOverflow (k v w ttl rm e) : b.cl[i]? = some (.upUpdate k v w ttl rm) → b.g.store.get? k = some e →
-      upExpiry b.g.now ttl rm e.expiry = none → CStep b i (finishCall b i (.panic .timeOverflow))
+      upExpiry b.g.now ttl rm e.expiry = none → CAct b i (finishCall b i (.panic .timeOverflow))
   | upFound (k v w ttl rm e exp) : b.cl[i]? = some (.upUpdate k v w ttl rm) → b.g.store.get? k = some e →
       upExpiry b.g.now ttl rm e.expiry = some exp →
-      CStep b i (setClient { b with g := { b.g with store := b.g.store.set k { e with expiry := exp, value := v.getD e.value } } } i
+      CAct b i (setClient { b with g := { b.g with store := b.g.store.set k { e with expiry := exp, value := v.getD e.value } } } i
         (.upWeightOf e.id (upsertW b.g.cfg v w ttl) e.expiry exp))
   | upWAdded (id uw n) : b.cl[i]? = some (.upWeightOf id uw none (some n)) →
-      CStep b i (setClient b i (.upTtlPut id n (deriveAdd b id uw)))
+      CAct b i (setClient b i (.upTtlPut id n (deriveAdd b id uw)))
   | upWDeleted (id uw e) : b.cl[i]? = some (.upWeightOf id uw (some e) none) →
-      CStep b i (setClient b i (.upTtlDelete id e (deriveDel b id uw)))
+      CAct b i (setClient b i (.upTtlDelete id e (deriveDel b id uw)))
   | upWUpdated (id uw e n) : b.cl[i]? = some (.upWeightOf id uw (some e) (some n)) → e ≠ n →
-      CStep b i (setClient b i (.upTtlRemove id e n uw))
+      CAct b i (setClient b i (.upTtlRemove id e n uw))
   | upWNothing (id uw old new) : b.cl[i]? = some (.upWeightOf id uw old new) →
-      typeOfExpiryUpdate old new = .nothing → CStep b i (upAfterIndex b i id uw)
-  | upTtlPut (id e uw) : b.cl[i]? = some (.upTtlPut id e uw) → CStep b i (upAfterIndex { b with g := ttlPut b.g id e } i id uw)
+      typeOfExpiryUpdate old new = .nothing → CAct b i (upAfterIndex b i id uw)
+  | upTtlPut (id e uw) : b.cl[i]? = some (.upTtlPut id e uw) → CAct b i (upAfterIndex { b with g := ttlPut b.g id e } i id uw)
   | upTtlDelete (id e uw) : b.cl[i]? = some (.upTtlDelete id e uw) →
-      CStep b i (upAfterIndex { b with g := ttlDelete b.g id e } i id uw)
+      CAct b i (upAfterIndex { b with g := ttlDelete b.g id e } i id uw)
   | upTtlRemove (id old new uw) : b.cl[i]? = some (.upTtlRemove id old new uw) →
-      CStep b i (setClient { b with g := ttlDelete b.g id old } i (.upTtlInsert id new uw))
+      CAct b i (setClient { b with g := ttlDelete b.g id old } i (.upTtlInsert id new uw))
   | upTtlInsert (id new uw) : b.cl[i]? = some (.upTtlInsert id new uw) →
-      CStep b i (upAfterIndex { b with g := ttlPut b.g id new } i id uw)
+      CAct b i (upAfterIndex { b with g := ttlPut b.g id new } i id uw)
   | refMiss (k st) : b.cl[i]? = some (.refStore k) → (∀ e, b.g.store.get? k = some e → e.alive b.g.now = false) →
-      CStep b i (finishCall { b with g := { b.g with stats := st } } i (.value none))
+      CAct b i (finishCall { b with g := { b.g with stats := st } } i (.value none))
   | refHit (k e) : b.cl[i]? = some (.refStore k) → b.g.store.get? k = some e → e.alive b.g.now = true →
-      CStep b i (setClient { b with g := { b.g with stats := { b.g.stats with hits := b.g.stats.hits + 1 } },
+      CAct b i (setClient { b with g := { b.g with stats := { b.g.stats with hits := b.g.stats.hits + 1 } },
                                     storeReaders := (i, storeShardOf b k) :: b.storeReaders } i (.refPool k e.value))
   | refPool (k v g1) : b.cl[i]? = some (.refPool k v) →
       g1 = { b.g with pool := g1.pool, bufq := g1.bufq, stats := g1.stats } →
-      CStep b i (finishCall { b with g := g1, storeReaders := b.storeReaders.filter (fun p => p.1 != i) } i (.value (some v)))
+      CAct b i (finishCall { b with g := g1, storeReaders := b.storeReaders.filter (fun p => p.1 != i) } i (.value (some v)))
 
-theorem clientAct_cstep {b b' : BState} {i : Nat} {o o' : Oracle} (h : clientAct b i o = .ok (b', o')) :
-    CStep b i b' := by
+theorem clientAct_cact {b b' : BState} {i : Nat} {o o' : Oracle} (h : clientAct b i o = .ok (b', o')) :
+    CAct b i b' := by
   unfold clientAct at h
   simp only [] at h
   split at h
@@ -176,7 +176,7 @@ theorem clientAct_cstep {b b' : BState} {i : Nat} {o o' : Oracle} (h : clientAct
       split at h
       all_goals simp only [Except.ok.injEq, Prod.mk.injEq] at h; obtain ⟨rfl, rfl⟩ := h
       · exact .putPresentHit _ _ _ _ hpc (by assumption)
-      · exact .putPresentOk _ _ _ _ hpc (by simpa using ‹¬ _›)
+      · exact .putPresentOk _ _ _ _ hpc (Bool.eq_false_iff.mpr ‹¬ _›)
     | idNext k v w ttl =>
       simp only [Except.ok.injEq, Prod.mk.injEq] at h; obtain ⟨rfl, rfl⟩ := h
       exact .idNext _ _ _ _ hpc
@@ -211,7 +211,7 @@ theorem clientAct_cstep {b b' : BState} {i : Nat} {o o' : Oracle} (h : clientAct
         · refine .getMiss _ _ hpc ?_
           intro e' he'
           rw [he] at he'; cases he'
-          simpa using ‹¬ _›
+          exact Bool.eq_false_iff.mpr ‹¬ _›
       · rename_i he
         simp only [Except.ok.injEq, Prod.mk.injEq] at h; obtain ⟨rfl, rfl⟩ := h
         refine .getMiss _ _ hpc ?_
@@ -237,11 +237,11 @@ theorem clientAct_cstep {b b' : BState} {i : Nat} {o o' : Oracle} (h : clientAct
       · split at h
         · rename_i hnone
           split at h
-          · rename_i val weight hv hw
+          · rename_i val weight hw
             split at h
             all_goals simp only [Except.ok.injEq, Prod.mk.injEq] at h; obtain ⟨rfl, rfl⟩ := h
             · exact .upAbsentPanic _ _ _ _ _ _ hpc hnone
-            · exact .upAbsentPut _ _ _ _ _ val weight hpc hnone hv (by unfold upsertW; exact hw) (by omega)
+            · exact .upAbsentPut _ _ _ _ _ val weight hpc hnone rfl (by unfold upsertW; exact hw) (by omega)
           · simp only [Except.ok.injEq, Prod.mk.injEq] at h; obtain ⟨rfl, rfl⟩ := h
             exact .upAbsentPanic _ _ _ _ _ _ hpc hnone
         · rename_i e he
@@ -264,9 +264,19 @@ theorem clientAct_cstep {b b' : BState} {i : Nat} {o o' : Oracle} (h : clientAct
         · subst hty; exact .upWDeleted _ _ _ hpc
         · split at hty <;> cases hty
       · rename_i e n hty
-        cases old <;> cases new <;> simp [typeOfExpiryUpdate] at hty
-        obtain ⟨hne, rfl, rfl⟩ := hty
-        exact .upWUpdated _ _ _ _ hpc hne
+        cases old with
+        | none => cases new <;> simp [typeOfExpiryUpdate] at hty
+        | some a =>
+          cases new with
+          | none => simp [typeOfExpiryUpdate] at hty
+          | some c =>
+            simp only [typeOfExpiryUpdate] at hty
+            split at hty
+            · rename_i hne
+              injection hty with h1 h2
+              subst h1 h2
+              exact .upWUpdated _ _ _ _ hpc hne
+            · cases hty
       · rename_i hty
         exact .upWNothing _ _ _ _ hpc hty
     | upTtlPut id e uw =>
@@ -303,7 +313,7 @@ theorem clientAct_cstep {b b' : BState} {i : Nat} {o o' : Oracle} (h : clientAct
         · refine .refMiss _ _ hpc ?_
           intro e' he'
           rw [he] at he'; cases he'
-          simpa using ‹¬ _›
+          exact Bool.eq_false_iff.mpr ‹¬ _›
       · rename_i he
         simp only [Except.ok.injEq, Prod.mk.injEq] at h; obtain ⟨rfl, rfl⟩ := h
         refine .refMiss _ _ hpc ?_
@@ -326,7 +336,7 @@ theorem clientAct_cstep {b b' : BState} {i : Nat} {o o' : Oracle} (h : clientAct
         · refine .mgetMiss _ _ _ _ _ hpc ?_
           intro e' he'
           rw [he] at he'; cases he'
-          simpa using ‹¬ _›
+          exact Bool.eq_false_iff.mpr ‹¬ _›
       · rename_i he
         simp only [Except.ok.injEq, Prod.mk.injEq] at h; obtain ⟨rfl, rfl⟩ := h
         refine .mgetMiss _ _ _ _ _ hpc ?_
